@@ -537,10 +537,18 @@ func (bc *BaseComponent) AddDebugAttribute(tag *html.HTMLTag, componentType stri
 
 // CSS Class Helper Methods - Generic css-class attribute handling for all components
 
-// GetCSSClass returns the css-class attribute value
+// GetCSSClass returns the css-class attribute value: the element's own
+// attribute, else the one of its mj-class definitions, else the mj-attributes
+// default for its tag (or mj-all).
 func (bc *BaseComponent) GetCSSClass() string {
 	if value, exists := bc.Attrs["css-class"]; exists {
 		return value
+	}
+	if value := bc.getClassAttribute("css-class"); value != "" {
+		return value
+	}
+	if bc.Node != nil {
+		return bc.getGlobalAttribute(bc.Node.GetTagName(), "css-class")
 	}
 	return ""
 }
